@@ -436,6 +436,9 @@ func sentinelGuards(c *Ctx, rule string, fn *ssa.Function, sentinel string, targ
 			}
 			if EdgeDominates(p, other, target.Block()) || chainDominates(p, other, target.Block()) {
 				c.Pass(rule, k, ifi.Pos(), 2, "the %s rejection guards %s (its pass edge dominates it)", sentinel, tDesc)
+			} else if blockInLoop(p) && blockReaches(p, target.Block()) && !blockReaches(target.Block(), p) {
+				// a per-element test inside a loop that has finished before the target runs
+				c.Pass(rule, k, ifi.Pos(), 2, "the per-element %s rejection loop completes before %s", sentinel, tDesc)
 			} else {
 				c.Fail(rule, k, ifi.Pos(), 2, "%s is reachable without passing the %s rejection test", tDesc, sentinel)
 			}
